@@ -446,6 +446,8 @@ impl RefStore {
 }
 
 struct Case<'a> {
+    /// uncles embedded in main-chain blocks
+    included: HashSet<Byte32>,
     /// blocks the builder attached in place to one of its stores (built with Tweak::None, cellbase only)
     inplace: HashSet<Byte32>,
     t_submit: std::time::Duration,
@@ -619,6 +621,7 @@ impl Case<'_> {
         self.out.op(&format!("submit {} now={}", id, now), &format!("{} tip={} st={}", v, tip_id, st));
         self.out.count(&format!("{:?}:{}", intent, v));
         self.rules_hit.insert(format!("{}:{:?}", rule, intent));
+        self.out.count(&format!("rule:{}={}", rule, v));
         // ---- oracle on the implementation alone
         match intent {
             Intent::Valid => {
@@ -698,7 +701,12 @@ fn with_txs(v: &BlockView, txs: Vec<TransactionView>) -> BlockView {
 fn edit_raw(v: &BlockView, f: impl FnOnce(packed::RawHeaderBuilder) -> packed::RawHeaderBuilder) -> BlockView {
     let raw = f(v.data().header().raw().as_builder()).build();
     let header = v.data().header().as_builder().raw(raw).build();
-    v.data().as_builder().header(header).build().into_view()
+    let d = v.data();
+    let blk = match v.extension() {
+        Some(ext) => packed::BlockV1::new_builder().header(header).uncles(d.uncles()).transactions(d.transactions()).proposals(d.proposals()).extension(ext).build().as_v0(),
+        None => packed::Block::new_builder().header(header).uncles(d.uncles()).transactions(d.transactions()).proposals(d.proposals()).build(),
+    };
+    blk.into_view_without_reset_header()
 }
 
 fn edit_uncle_raw(u: &UncleBlockView, f: impl FnOnce(packed::RawHeaderBuilder) -> packed::RawHeaderBuilder) -> UncleBlockView {
@@ -776,6 +784,7 @@ fn run_case(out: &mut Out, seed: u64, base: &Path, cyc: u64, steps: usize) {
     let cells = genesis_cells(&consensus);
     let mut c = Case {
         inplace: HashSet::new(),
+        included: HashSet::new(),
         t_submit: Default::default(),
         t_describe: Default::default(),
         t_process: Default::default(),
@@ -868,9 +877,23 @@ fn scratch_tx(c: &mut Case) -> Option<TransactionView> {
 }
 
 /// uncle candidates valid for a block on the current tip: same epoch as the new block, parent on the main chain
-fn valid_uncles(c: &Case, new_epoch: u64, max: usize) -> Vec<BlockView> {
+fn valid_uncles(c: &Case, new_epoch: u64, h: u64, max: usize) -> Vec<BlockView> {
     let main: HashSet<Byte32> = c.builder.path_to(&c.tip).into_iter().collect();
-    c.pool.iter().filter(|u| u.epoch().number() == new_epoch && main.contains(&u.parent_hash()) && !main.contains(&u.hash())).take(max).cloned().collect()
+    let mut chosen: Vec<BlockView> = vec![];
+    for u in c.pool.iter() {
+        if chosen.len() >= max {
+            break;
+        }
+        if u.epoch().number() != new_epoch || u.number() >= h || main.contains(&u.hash()) || c.included.contains(&u.hash()) {
+            continue;
+        }
+        let p = u.parent_hash();
+        // descent: parent on the main chain, or an uncle embedded earlier (in the chain or in this block)
+        if main.contains(&p) || c.included.contains(&p) || chosen.iter().any(|x| x.hash() == p) {
+            chosen.push(u.clone());
+        }
+    }
+    chosen
 }
 
 /// a fully valid sibling of `b` made by surgery (other timestamp / proposals, no uncles): same
@@ -903,7 +926,7 @@ fn step(c: &mut Case) {
         } else if d < wc {
             too_early.push((tx.clone(), hp));
             keep.push((tx, hp));
-        } else if d == wc || d == wf || c.rng.chance(1, 2) {
+        } else if (d == wc && c.rng.chance(1, 2)) || (d == wf && !c.rng.chance(1, 4)) || (d != wf && c.rng.chance(1, 4)) {
             commit_now.push((tx, hp));
         } else {
             keep.push((tx, hp));
@@ -950,7 +973,7 @@ fn step(c: &mut Case) {
     };
     // uncles
     let n_unc = c.rng.below(3) as usize;
-    let uncles = valid_uncles(c, new_epoch, n_unc);
+    let uncles = valid_uncles(c, new_epoch, h, n_unc);
     spec.uncles = uncles.iter().map(|u| u.as_uncle()).collect();
     // boundary kinds decided before building, so that the builder's store follows the accepted block
     let mut bkind = c.rng.below(12);
@@ -1002,6 +1025,34 @@ fn step(c: &mut Case) {
             mutants.push((m.0, m.1, now));
         }
     }
+    for (tx, hp) in too_early.iter().filter(|(_, hp)| h - hp + 1 == wc).take(1) {
+        let _ = hp;
+        mutants.push((with_txs(&v, { let mut t = v.transactions(); t.push(tx.clone()); t }), "commit-w_close-1", now));
+    }
+    for (tx, hp) in expired.iter().filter(|(_, hp)| *hp != u64::MAX && h - hp == wf + 1).take(1) {
+        let _ = hp;
+        mutants.push((with_txs(&v, { let mut t = v.transactions(); t.push(tx.clone()); t }), "commit-w_far+1", now));
+    }
+    for (_, hp) in commit_now.iter() {
+        if h - hp == wc {
+            c.rules_hit.insert("commit-w_close:Valid".into());
+            c.out.count("valid:commit-at-w_close");
+        }
+        if h - hp == wf {
+            c.rules_hit.insert("commit-w_far:Valid".into());
+            c.out.count("valid:commit-at-w_far");
+        }
+    }
+    {
+        let main: HashSet<Byte32> = c.builder.path_to(&parent).into_iter().collect();
+        if uncles.iter().any(|u| !main.contains(&u.parent_hash())) {
+            c.out.count("valid:uncle-descends-from-uncle");
+            c.rules_hit.insert("uncle-embedded-descent:Valid".into());
+        }
+    }
+    if !spec.uncles.is_empty() {
+        c.out.count(&format!("valid:uncles={}", spec.uncles.len()));
+    }
     if let Some(over) = over_block {
         mutants.push((over, "cycles-limit+1", now));
         c.rules_hit.insert("cycles-limit:Valid".into());
@@ -1035,6 +1086,7 @@ fn step(c: &mut Case) {
     }
     for u in &v.uncles().into_iter().collect::<Vec<_>>() {
         c.pool.retain(|p| p.hash() != u.hash());
+        c.included.insert(u.hash());
         // proposals carried by an included uncle are proposed at this height
         for p in u.data().proposals().into_iter() {
             for e in c.pending.iter_mut() {
@@ -1048,7 +1100,17 @@ fn step(c: &mut Case) {
         if c.rng.chance(1, 2) {
             c.submit(&s, now, Intent::Side, "sibling");
         }
+        // a header that descends from the sibling: usable as an uncle only together with / after it
+        // (embedded descent); only its header fields matter to the uncle rules
+        let child = if c.rng.chance(1, 3) {
+            Some(s.as_advanced_builder().parent_hash(s.hash()).number(s.number() + 1).timestamp(s.timestamp() + 1).set_proposals(vec![]).build())
+        } else {
+            None
+        };
         c.pool.push(s);
+        if let Some(ch) = child {
+            c.pool.push(ch);
+        }
     }
     // side-branch variant
     if c.rng.chance(1, 5) && h >= 3 {
@@ -1312,15 +1374,15 @@ fn make_mutant(
             )
         }
         39 if h > c.consensus.finalization_delay_length() => (
-            with_cellbase(v, |cb| {
+            fix_dao(c, with_cellbase(v, |cb| {
                 let o = v.transactions()[0].outputs().get(0).unwrap();
                 let other = lock.clone().as_builder().args(Bytes::from(vec![9u8]).pack()).build();
                 cb.set_outputs(vec![o.as_builder().lock(other).build()])
-            }),
+            }))?,
             "reward-lock",
         ),
-        40 if h <= c.consensus.finalization_delay_length() => (
-            with_cellbase(v, |cb| cb.output(CellOutput::new_builder().capacity(capacity_bytes!(100)).lock(lock.clone()).build()).output_data(Bytes::new())),
+        40 | 13 | 16 | 17 | 38 | 39 if h <= c.consensus.finalization_delay_length() => (
+            fix_dao(c, with_cellbase(v, |cb| cb.output(CellOutput::new_builder().capacity(capacity_bytes!(100)).lock(lock.clone()).build()).output_data(Bytes::new())))?,
             "reward-before-finalization",
         ),
         41 => {
@@ -1354,6 +1416,26 @@ fn make_mutant(
         return None;
     }
     Some(r)
+}
+
+/// recompute the DAO field of a block built on the reference store's tip (so that a changed cellbase
+/// reaches the reward rules with a consistent DAO field)
+fn fix_dao(c: &Case, blk: BlockView) -> Option<BlockView> {
+    let db = &c.refstore.db;
+    if c.refstore.tip != blk.parent_hash() {
+        return None;
+    }
+    let parent_header = db.get_block_header(&blk.parent_hash())?;
+    let txn = db.begin_transaction();
+    let mut seen = HashSet::new();
+    let hc = MainChainHeaders { db };
+    let bcp = BlockCellProvider::new(&blk).ok()?;
+    let cp = OverlayCellProvider::new(&bcp, &txn);
+    let rtxs: Option<Vec<Arc<ResolvedTransaction>>> = blk.transactions().iter().map(|tx| resolve_transaction(tx.clone(), &mut seen, &cp, &hc).map(Arc::new).ok()).collect();
+    let rtxs = rtxs?;
+    let loader = db.borrow_as_data_loader();
+    let dao = DaoCalculator::new(&c.consensus, &loader).dao_field(rtxs.iter().map(AsRef::as_ref), &parent_header).ok()?;
+    Some(blk.as_advanced_builder().dao(dao).build())
 }
 
 fn edit_dao(v: &BlockView) -> BlockView {
@@ -1490,6 +1572,57 @@ fn poison_tip(c: &mut Case) {
     }
 }
 
+/// minimal histories of the two recorded findings (corpus/C03/*.ops: `case <n> scenario=f13|f14`)
+fn run_scenario(out: &mut Out, name: &str, base: &Path) {
+    out.begin_case(&format!("scenario={}", name));
+    let cc = CaseCfg { epoch_len: 10, window: (2, 10), median: 37, max_props: 1500, max_bytes: 597_000, max_cycles: 3_500_000_000, defaults: true };
+    let consensus = consensus_for(&cc, 2);
+    let dir = base.join(format!("scenario-{}", name));
+    let _ = std::fs::remove_dir_all(&dir);
+    let node = Node::start(&dir.join("node"), consensus.clone(), &NodeCfg::default());
+    let mut b = ChainBuilder::new(consensus.clone(), &dir.join("builder"));
+    let g = consensus.genesis_hash();
+    let b1 = b.build(&g, &BlockSpec { salt: 1, ..Default::default() });
+    let u = sibling_of(&b1, 5, vec![]);
+    let b2 = b.build(&b1.hash(), &BlockSpec { salt: 2, uncles: vec![u.as_uncle()], ..Default::default() });
+    let b3 = b.build(&b2.hash(), &BlockSpec { salt: 3, ..Default::default() });
+    for blk in [&b1, &b2, &b3] {
+        node.process(blk).expect("valid chain");
+    }
+    match name {
+        "f13" => {
+            let variant = b2.as_advanced_builder().set_uncles(vec![]).build_unchecked();
+            assert_eq!(variant.hash(), b2.hash());
+            let raw = |n: &Node| n.store().get(ckb_db_schema::COLUMN_BLOCK_UNCLE, b2.hash().as_slice()).map(|x| x.as_ref().to_vec());
+            let before = raw(&node);
+            let r = node.controller().blocking_process_block(Arc::new(variant));
+            out.count(&format!("f13:{:?}", r.as_ref().map_err(|e| e.to_string())));
+            if raw(&node) != before {
+                out.oracle_fail("attached-body-replaced", &format!("chain 1..3, block 2 embeds one uncle; block 2's header delivered again with uncles=[] -> {:?}; the stored COLUMN_BLOCK_UNCLE row of main-chain block 2 changed", r.map_err(|e| e.to_string())));
+            }
+        }
+        "f14" => {
+            let variant = b3.as_advanced_builder().set_transactions(vec![]).build_unchecked();
+            assert_eq!(variant.hash(), b3.hash());
+            let r = node.controller().blocking_process_block(Arc::new(variant));
+            let st = node.shared.get_block_status(&b3.hash());
+            let b4 = b.build(&b3.hash(), &BlockSpec { salt: 4, ..Default::default() });
+            let r4 = node.process(&b4);
+            out.count(&format!("f14:child:{}", if r4.is_ok() { "ok" } else { "err" }));
+            if st == BlockStatus::BLOCK_INVALID || r4.is_err() {
+                out.oracle_fail("attached-block-marked-invalid", &format!("chain 1..3; the tip's header delivered again with an empty body -> {:?}; status of the attached tip = {:?}; its fully valid child 4 -> {:?}", r.map_err(|e| e.to_string()), st, r4));
+            }
+        }
+        other => {
+            eprintln!("unknown scenario {}", other);
+            std::process::exit(2);
+        }
+    }
+    node.stop();
+    drop(b);
+    let _ = std::fs::remove_dir_all(&dir);
+}
+
 pub fn run(opts: &Opts) {
     let mut out = Out::new(&opts.out);
     let base = scratch_dir(&opts.out, "c03");
@@ -1499,20 +1632,24 @@ pub fn run(opts: &Opts) {
         let mut seeds = vec![];
         for l in &ops {
             if l.starts_with("case ") {
+                if let Some(sc) = l.split_whitespace().find_map(|t| t.strip_prefix("scenario=")) {
+                    run_scenario(&mut out, sc, &base);
+                    continue;
+                }
                 if let Some(s) = l.split_whitespace().find_map(|t| t.strip_prefix("seed=")) {
                     seeds.push(s.parse::<u64>().expect("seed"));
                 }
             }
         }
-        if seeds.is_empty() {
-            eprintln!("replay file has no `case <n> seed=<s>` line");
+        if seeds.is_empty() && out.case == 0 {
+            eprintln!("replay file has no `case <n> seed=<s>` / `scenario=<name>` line");
             std::process::exit(2);
         }
         for s in seeds {
             run_case(&mut out, s, &base, cyc, 30);
         }
     } else {
-        let cases = if opts.thorough() { 200 * opts.scale } else { 14 * opts.scale };
+        let cases = if opts.thorough() { 300 * opts.scale } else { 14 * opts.scale };
         for i in 0..cases {
             run_case(&mut out, opts.seed.wrapping_mul(1_000_003).wrapping_add(i), &base, cyc, 30);
         }
